@@ -393,4 +393,5 @@ RULES = [
 	('04.g', 'final-hop amount and cltv guards', r04g),
 	('04.k', 'MPP parts agree on their must-understand custom TLVs in both directions', r04k),
 	('04.p', 'same-name field transfer: structs carrying this property\'s quantities are filled from the same-named field or a reviewed alias (rules/provenance.py)', lambda F: provenance.for_property(F, 'C04', '04.p')),
+	('04.q', 'no call hands a value named like one parameter of the callee to a different parameter (swapped type-compatible arguments; rules/provenance.py)', lambda F: provenance.swaps_for_property(F, 'C04', '04.q')),
 ]
